@@ -401,7 +401,13 @@ def base_type_before_last(f, place):
 
 
 def callers_of(w, target):
+    """call sites of `target`; a function that was spliced into its caller (facts.inline_new_helpers) still counts that caller"""
     out = []
+    for c_ in getattr(w, 'crates', {}).values() if isinstance(getattr(w, 'crates', None), dict) else []:
+        for caller in getattr(c_, 'inlined_into', {}).get(target, ()):
+            f = c_.fns.get(caller)
+            if f is not None:
+                out.append((f, 0, {'t': 'call', 'f': {'def': target, 'res': target}, 'args': [], 'dst': {'l': 0}, 'inlined': True}))
     for f in w.fns.values():
         for bi, t in f.calls(only_normal=False):
             if callee_name(t) == target or t['f'].get('def') == target:
